@@ -126,7 +126,7 @@ def run_job(job):
         if 'hfsm2' in (err or ''): res['hang'] = [l for l in err.split('\n') if 'hfsm2' in l][:3]
         else: res['timeout'] = True
     try:
-        header, ops, trailer, stray = logparse.parse(logp)
+        stream = logparse.Stream(logp); header = stream.header; stray = stream.stray; trailer = None      # streamed: a thorough log is hundreds of MB
         if header is None and not skey: raise RuntimeError('log has no header')
         # (machines using the built-in generator are checked differentially only: see Checker.lockstep_only)
         knobs = {k: v for k, v in PROFILES[profile].items() if k in ('zeroUtil', 'palette', 'pConsume', 'fineUtil')}
@@ -134,7 +134,7 @@ def run_job(job):
         knobs['mirror'] = 1 if PROFILES[profile].get('verboseMethods') else 0
         knobs['taskcap'] = sj['cfg'].get('taskcap') or 2 * sj['expect']['COMPO_PRONGS']
         chk = check_log.Checker(sj, int(header[3]), knobs, int(header[5]), header[4] == '1')
-        chk.run(ops)
+        chk.run(stream.ops()); trailer = stream.trailer
         if len(header) >= 9 and int(header[7]) >= 0:
             exp = sj['expect']
             if int(header[7]) != exp['SERIAL_BITS'] or int(header[8]) != exp['SERIAL_BYTES']:
@@ -142,7 +142,7 @@ def run_job(job):
         for sv in stray:
             if sv and isinstance(sv[0], str) and '.' in sv[0] and sv[0][0] == 'C': chk.v(sv[0].split('.')[0], 'inproc|' + sv[0].split('.', 1)[1], None, sv[1:])
         res['summary'] = check_log.summarize(chk, header, trailer, stray)
-        res['nt'] = {k: [hash((sj['name'],) + (x if isinstance(x, tuple) else (x,))) & 0xffffffffffff for x in list(v)[:50000]] for k, v in chk.nontrivial.items()}
+        res['nt'] = {k: [hash((sj['name'],) + (x if isinstance(x, tuple) else (x,))) & 0xffffffffffff for x in list(v)[:50000]] for k, v in chk.nontrivial.items() if k in (prop, 'C10')}
         res['cfg_hashes'] = [hash((sj['name'], c)) & 0xffffffffffff for c in list(chk.configs)[:50000]]
         res['complete'] = trailer is not None
     except Exception as ex:
@@ -227,13 +227,18 @@ def shape_engine(prop, tier, seed, keep=False):
         for sj, fl, ex_, binp, out in vlib.pmap(build_job, [(sj, 'clang-asan', '') for sj in brng[:3 if tier == 'quick' else 12]]):
             if binp is None: V.harness_errors.append('build failed: %s: %s' % (sj['name'], out[:300])); continue
             jobs.append((sj, fl, binp, 'copies', seed * 31 + 7, T['steps'], prop, keep))
-    results = []
+    results = []; ntacc = set(); cfgacc = set()
     with cf.ProcessPoolExecutor(max_workers=vlib.JOBS) as ex:
-        for r in ex.map(run_job, jobs, chunksize=1): results.append(r)
-    return adjudicate(V, prop, results, shapeset, flavours, dict(build_s=round(tb, 1), join_output_differs_from_single_header=joindiff))
+        for r in ex.map(run_job, jobs, chunksize=1):
+            # merged as they arrive: thousands of runs with tens of thousands of hashes each do not fit in memory as lists
+            for h in r.get('nt', {}).get(prop, []): ntacc.add(h)
+            for h in r.get('cfg_hashes', []): cfgacc.add(h)
+            r['nt'] = {}; r['cfg_hashes'] = []
+            results.append(r)
+    return adjudicate(V, prop, results, shapeset, flavours, dict(build_s=round(tb, 1), join_output_differs_from_single_header=joindiff), ntacc, cfgacc)
 
-def adjudicate(V, prop, results, shapeset, flavours, extra):
-    nt = set(); cfgs = set(); stats = {}; samples = []; evals = 0; completed = 0
+def adjudicate(V, prop, results, shapeset, flavours, extra, nt0=None, cfg0=None):
+    nt = set(nt0 or ()); cfgs = set(cfg0 or ()); stats = {}; samples = []; evals = 0; completed = 0
     for r in results:
         run = {k: r[k] for k in ('shape', 'desc', 'cfg', 'flavour', 'profile', 'seed', 'steps', 'args', 'sj')}
         if r.get('timeout'):
